@@ -476,9 +476,16 @@ func (fr *Frame) appendSlices(st *State, et types.Type, s, t Term) Term {
 	inplace := r.name("inplace", or(eq(lt, intLit(0)), app("Bool", "<=", nl, app("Int", "sl_cap", s))))
 	r.noteWrite(key, r.arrRefOf(origS))
 	r.heapSet(st, key, ite(inplace, store(A, app("Int", "sl_arr", s), P), store(A, ref, R)))
-	res := r.name("appended", ite(inplace,
+	res := r.constOf(st, "appended", ite(inplace,
 		app("Slice", "mk_slice", app("Int", "sl_arr", s), offS, nl, app("Int", "sl_cap", s)),
 		app("Slice", "mk_slice", ref, intLit(0), nl, ncap)))
+	// bridge (valid in both cases, stated with pattern-safe constants): the old elements are the first elements of the result
+	NA := r.constOf(st, "apN", sel(r.heapGet(st, key), app("Int", "sl_arr", res)))
+	r.assume(st, Term{fmt.Sprintf("(forall ((i_ Int)) (! (=> (and (<= 0 i_) (< i_ %s)) (= (select %s (sl_ix (sl_off %s) i_)) (select %s (sl_ix %s i_)))) :pattern ((select %s (sl_ix %s i_))) :pattern ((select %s (sl_ix (sl_off %s) i_)))))",
+		ls.S, NA.S, res.S, S.S, offS.S, S.S, offS.S, NA.S, res.S), "Bool"})
+	r.assume(st, Term{fmt.Sprintf("(forall ((i_ Int)) (! (=> (and (<= 0 i_) (< i_ %s)) (= (select %s (sl_ix (sl_off %s) (+ %s i_))) (select %s (sl_ix %s i_)))) :pattern ((select %s (sl_ix %s i_)))))",
+		lt.S, NA.S, res.S, ls.S, T.S, offT.S, T.S, offT.S), "Bool"})
+	r.assume(st, implies(eq(lt, intLit(1)), eq(sel(NA, app("Int", "sl_ix", app("Int", "sl_off", res), ls)), sel(T, app("Int", "sl_ix", offT, intLit(0))))))
 	if a, ok := r.sliceArr[origS.S]; ok && r.sliceArr != nil {
 		// a slice built on an allocation of this function stays on allocations of this function
 		_ = a
